@@ -122,3 +122,165 @@ Proof. vm_compute. split; reflexivity. Qed.
 Example C07_ex_chars_rejected :
   build P_default (lit "m1"%string) (OKillSession [52; 0]) = Refused ValueError.
 Proof. vm_compute. reflexivity. Qed.
+
+(* ------------------------------------------------------------------------------------------ *)
+(* Vendor operation classes (ncclient/operations/third_party/*/rpc.py) as reached through a Manager made with
+   the profile that ships them.  Model: Model/VendorBuilders.v (30 classes: juniper Command, GetConfiguration,
+   LoadConfiguration, CompareConfiguration, ExecuteRpc, Reboot, Halt, Commit, Rollback; sros MdCliRawCommand,
+   Commit; alu ShowCLI, GetConfiguration, LoadConfiguration; h3c GetBulk, GetBulkConfig, CLI, Action, Save, Load,
+   Rollback; hpcomware DisplayCommand, ConfigCommand, Action, Save, Rollback; huawei CLI, Action; iosxe SaveConfig;
+   nexus ExecCommand).  Spec: Spec/VendorSchema.v.  The tree is the one an independent reader sees (rules R1-R3). *)
+From Coq Require Import ZArith.
+From NC Require Import Model.VendorBuilders Spec.VendorSchema Proofs.VendorBuildersProofs.
+
+(* Every built vendor request is one <rpc> in the base namespace whose only attribute is message-id = the
+   request's id and whose only child is one element — all 30 classes, all argument records, both envelope styles. *)
+Theorem C07_vendor_envelope : forall (mid : bytes) (c : vcall) (t : tree),
+  vbuild mid c = VBuilt t -> exists op, envelope mid t op.
+Proof. exact c07_vendor_envelope. Qed.
+Print Assumptions C07_vendor_envelope.
+
+Theorem C07_vendor_envelope_any_profile : forall (m : nsmode) (mid : bytes) (c : vcall) (t : tree),
+  vbuild_under m mid c = VBuilt t -> exists op, envelope mid t op.
+Proof. exact c07_vendor_envelope_under. Qed.
+Print Assumptions C07_vendor_envelope_any_profile.
+
+(* The operation element is an instance of the vendor's schema as shipped: name and namespace (as read under the
+   shipping profile's envelope), exactly the schema's attribute list, text only where the schema has text, children
+   — recursively — among the schema's, in schema order, each position at most once unless repeatable.  Caller
+   documents are parser output (vcallers_ok: elements; a raw filter rooted at a bare/base <filter>). *)
+Theorem C07_vendor_conforms : forall (mid : bytes) (c : vcall) (t : tree),
+  vcallers_ok c = true -> vbuild mid c = VBuilt t -> exists op, envelope mid t op /\ vconforms c op.
+Proof. exact c07_vendor_conforms. Qed.
+Print Assumptions C07_vendor_conforms.
+
+(* Caller strings — CLI/command text, config text, file names, identifiers, format/action/rollback attributes, list
+   items — are, verbatim, the text (or attribute value, or element name for a datastore) at the path the schema
+   gives them; an omitted optional argument leaves no element.  Junos confirm-timeout is the documented conversion
+   (seconds to minutes, rounded up). *)
+Theorem C07_vendor_carries_text : forall (mid : bytes) (c : vcall) (t op : tree),
+  vcallers_ok c = true -> vbuild mid c = VBuilt t -> envelope mid t op -> Forall (holds op) (carried_strings c).
+Proof. exact c07_vendor_carries_strings. Qed.
+Print Assumptions C07_vendor_carries_text.
+
+(* Caller XML fragments are the element children of the element the schema puts them under, in order, nothing
+   else beside them, as a reader sees the caller's own document where the default namespace in scope is d
+   (none for junos; base for alu/h3c/hpcomware; the huawei private namespace under execute-cli/execute-action) … *)
+Theorem C07_vendor_carries_fragment : forall (mid : bytes) (c : vcall) (t op : tree),
+  vcallers_ok c = true -> vbuild mid c = VBuilt t -> envelope mid t op ->
+  Forall (fholds (vmode (vcall_prof c)) op) (carried_fragments c).
+Proof. exact c07_vendor_carries_fragments. Qed.
+Print Assumptions C07_vendor_carries_fragment.
+
+(* … which is the caller's document itself under the junos (prefixed) envelope, and under every envelope when all
+   its elements are in namespaces of their own (parser output never has an attribute literally named xmlns). *)
+Theorem C07_vendor_fragment_verbatim : forall (t : tree),
+  no_xmlns t = true ->
+  resolve Prefixed [] t = t /\ (forall m d, qualified t = true -> resolve m d t = t).
+Proof. intros t N. split; [now apply resolve_prefixed_id|intros m d Q; now apply resolve_qualified_id]. Qed.
+Print Assumptions C07_vendor_fragment_verbatim.
+
+(* junos load_configuration: a format outside {xml, text, json} (after action='set' forced 'text') never yields a
+   request (fix 4913cf2).  No other vendor class validates an enumerated argument (see the open findings). *)
+Theorem C07_vendor_enum_reject : forall (mid : bytes) (c : vcall),
+  venum_violation c = true -> vbuild mid c = VRefused OperationError.
+Proof. exact c07_vendor_enum_reject. Qed.
+Print Assumptions C07_vendor_enum_reject.
+
+(* mutually exclusive arguments (junos commit confirmed + at_time; sros commit persist + persist_id) never yield a request *)
+Theorem C07_vendor_excl_reject : forall (mid : bytes) (c : vcall),
+  vexcl_violation c = true -> exists e, vbuild mid c = VRefused e.
+Proof. exact c07_vendor_excl_reject. Qed.
+Print Assumptions C07_vendor_excl_reject.
+
+(* xml_.yang_action builds {base}action with an ATTRIBUTE xmlns=urn:ietf:params:xml:ns:yang:1 (rule R2): under the
+   sros profile — the only one that ships a class using it; default-namespace envelope — a reader sees RFC 7950's
+   {urn:ietf:params:xml:ns:yang:1}action; under a prefixed envelope the same element would be read as {base}action. *)
+Theorem C07_vendor_yang_action : forall (mid : bytes) (command : option bytes) (t : tree),
+  (vbuild_under DefaultNs mid (VSMdCliRawCommand command) = VBuilt t ->
+     exists a cs, t = Elem (b_ s_rpc) [(a_ s_message_id, mid)] [Elem (qn NS_YANG s_action) a cs])
+  /\ (vbuild_under Prefixed mid (VSMdCliRawCommand command) = VBuilt t ->
+     exists a cs, t = Elem (b_ s_rpc) [(a_ s_message_id, mid)] [Elem (b_ s_action) a cs]).
+Proof. exact c07_vendor_yang_action. Qed.
+Print Assumptions C07_vendor_yang_action.
+
+(* ---------------- non-vacuity ---------------- *)
+Definition vx_mid := Eval compute in lit "m1"%string.
+Definition vx_frag : tree :=
+  Elem (a_ (lit "system"%string)) [] [Elem (qn (lit "urn:x"%string) (lit "host-name"%string)) [(a_ (lit "k"%string), lit "a""b"%string)] [Text (lit "r1<&>"%string)]].
+Definition vx_op (r : vres) : option tree := match r with VBuilt (Elem _ _ [op]) => Some op | _ => None end.
+
+Example C07_ex_vendor_envelope_conforms :
+  (* one call per vendor, with markup characters, list arguments, text and xml config *)
+  forallb (fun c => match vbuild vx_mid c with
+                    | VBuilt (Elem q [(k, v)] [Elem oq oa ocs]) =>
+                        qname_eqb q (b_ s_rpc) && qname_eqb k (a_ s_message_id) && beq v vx_mid
+                        && matches (Elem oq oa ocs) (vschema c) && vcallers_ok c
+                    | _ => false
+                    end)
+    [VJCommand (Some (lit "show <x> & ]]>"%string)) s_text;
+     VJLoadConfiguration s_xml s_merge (JOne (EElem vx_frag));
+     VJLoadConfiguration s_xml s_set (JList [lit "set a"%string; lit "set b"%string]);
+     VJCommit true (TInt 125) (Some (lit "why"%string)) true None true;
+     VSMdCliRawCommand (Some (lit "show version"%string));
+     VSCommit true (Some (lit "50"%string)) None None (Some (lit " a comment "%string)) true;
+     VAGetConfiguration s_cli (Some (AFItems [lit "port 1/1/11"%string; lit "system"%string])) true;
+     VALoadConfiguration s_cli (Some s_merge) (DsStr (lit "candidate"%string) true) (Some (EStr (lit "configure <x>"%string)));
+     VHGetBulkConfig (DsStr (lit "http://h/x"%string) true) (Some (FList [vx_frag; vx_frag]));
+     VPDisplayCommand (CmList [lit "display version"%string; lit "display vlan"%string]);
+     VWCli (DocTree vx_frag); VXSaveConfig; VNExecCommand [lit "show version"%string; lit "a<b"%string]] = true.
+Proof. vm_compute. reflexivity. Qed.
+
+Example C07_ex_vendor_carries :
+  (* junos: the set-format config is the '\n'-joined list, verbatim, in configuration-set; action and the forced format are attributes *)
+  (match vx_op (vbuild vx_mid (VJLoadConfiguration s_xml s_set (JList [lit "set a<"%string; lit "set b"%string]))) with
+   | Some op => map text_of (at_path [b_ s_configuration_set] op) = [lit "set a<"%string ++ [10] ++ lit "set b"%string]
+                /\ attr_of s_format op = Some s_text /\ attr_of s_action op = Some s_set
+   | None => False end)
+  (* junos commit: 125 s -> 3 minutes; -61 s -> -1 *)
+  /\ (match vx_op (vbuild vx_mid (VJCommit true (TInt 125) None false None false)) with
+      | Some op => map text_of (at_path [a_ s_confirm_timeout] op) = [lit "3"%string] | None => False end)
+  /\ z_to_dec (ceil_minutes (-61)) = lit "-1"%string
+  (* sros: the command is the text of {oper-global}md-cli-input-line below {yang:1}action/{oper-global}global-operations *)
+  /\ (match vx_op (vbuild vx_mid (VSMdCliRawCommand (Some (lit "show <x>"%string)))) with
+      | Some op => map text_of (at_path [o_ s_global_operations; o_ s_md_cli_raw_command; o_ s_md_cli_input_line] op) = [lit "show <x>"%string]
+                   /\ name_of op = qn NS_YANG s_action
+      | None => False end)
+  (* huawei: the caller's un-namespaced <system> is read in the huawei private namespace (R2 + R3), its urn:x child and text unchanged *)
+  /\ (match vx_op (vbuild vx_mid (VWCli (DocTree vx_frag))) with
+      | Some op => kids_of op = [resolve DefaultNs NS_HW vx_frag]
+                   /\ map name_of (kids_of op) = [h_ (lit "system"%string)]
+      | None => False end)
+  (* junos: the same fragment under <configuration> is the caller's document itself *)
+  /\ (match vx_op (vbuild vx_mid (VJLoadConfiguration s_xml s_merge (JOne (EElem vx_frag)))) with
+      | Some op => map kids_of (at_path [b_ s_configuration] op) = [[vx_frag]] | None => False end)
+  /\ no_xmlns vx_frag = true.
+Proof. vm_compute. repeat split; reflexivity. Qed.
+
+Example C07_ex_vendor_reject :
+  venum_violation (VJLoadConfiguration (lit "set"%string) s_merge (JOne (EStr (lit "set x"%string)))) = true
+  /\ vbuild vx_mid (VJLoadConfiguration (lit "set"%string) s_merge (JOne (EStr (lit "set x"%string)))) = VRefused OperationError
+  /\ vexcl_violation (VJCommit true TNone None false (Some (lit "12:00"%string)) false) = true
+  /\ vbuild vx_mid (VJCommit true TNone None false (Some (lit "12:00"%string)) false) = VRefused NCClientError
+  /\ vbuild vx_mid (VSCommit false None (Some (lit "a"%string)) (Some (lit "b"%string)) None false) = VRefused OperationError
+  /\ vbuild vx_mid (VJLoadConfiguration s_xml s_merge (JOne (EStr (lit "<system/>"%string)))) = VRefused TypeError
+  /\ vbuild vx_mid (VJCommand (Some [120; 0]) s_xml) = VRefused ValueError.
+Proof. vm_compute. repeat split; reflexivity. Qed.
+
+(* the faithful model exhibits the two open vendor findings:
+   C07-vendor-config-omitted — junos load_configuration() without config: no request, no error; alu: <edit-config> without
+   <target> and <config>;  C07-alu-unknown-selector — content/format outside {xml, cli}: the filter / the config is dropped *)
+Example C07_vendor_omitted_refuted :
+  vbuild vx_mid (VJLoadConfiguration s_text (lit "override"%string) JNone) = VNothing
+  /\ (match vx_op (vbuild vx_mid (VALoadConfiguration s_xml None (DsStr s_running true) None)) with
+      | Some (Elem q [] []) => q = b_ s_edit_config | _ => False end)
+  /\ (match vx_op (vbuild vx_mid (VAGetConfiguration (lit "json"%string) (Some (AFItems [lit "system"%string])) false)) with
+      | Some op => map name_of (kids_of op) = [b_ s_source] | None => False end)
+  /\ (match vx_op (vbuild vx_mid (VALoadConfiguration (lit "text"%string) None (DsStr s_running true) (Some (EStr (lit "x"%string))))) with
+      | Some op => kids_of op = [Elem (b_ s_config) [] []] | None => False end).
+Proof. vm_compute. repeat split; reflexivity. Qed.
+
+Example C07_ex_vendor_yang_action :
+  (match vx_op (vbuild_under DefaultNs vx_mid (VSMdCliRawCommand None)) with Some op => name_of op = qn NS_YANG s_action | None => False end)
+  /\ (match vx_op (vbuild_under Prefixed vx_mid (VSMdCliRawCommand None)) with Some op => name_of op = b_ s_action | None => False end).
+Proof. vm_compute. split; reflexivity. Qed.
